@@ -42,23 +42,25 @@ type deferred struct {
 }
 
 type Frame struct {
-	fn       *ssa.Function
-	env      map[ssa.Value]Val
-	defers   []deferred
-	prev     *ssa.BasicBlock
-	depth    int
-	loopCut  map[*ssa.BasicBlock]bool
-	top      bool
-	args     []Val
-	stack    []*ssa.Function
-	recovers bool
-	unrolled int
-	entry    *State
+	fn        *ssa.Function
+	env       map[ssa.Value]Val
+	defers    []deferred
+	prev      *ssa.BasicBlock
+	depth     int
+	loopCut   map[*ssa.BasicBlock]bool
+	top       bool
+	args      []Val
+	stack     []*ssa.Function
+	recovers  bool
+	unrolled  int
+	curBlock  *ssa.BasicBlock
+	inLoopCtx bool // the call that created this frame sits inside a loop of an enclosing frame
+	entry     *State
 }
 
 func (f *Frame) clone() *Frame {
 	n := &Frame{fn: f.fn, env: make(map[ssa.Value]Val, len(f.env)), defers: append([]deferred(nil), f.defers...), prev: f.prev,
-		depth: f.depth, loopCut: make(map[*ssa.BasicBlock]bool, len(f.loopCut)), top: f.top, args: f.args, stack: f.stack, entry: f.entry, unrolled: f.unrolled}
+		depth: f.depth, loopCut: make(map[*ssa.BasicBlock]bool, len(f.loopCut)), top: f.top, args: f.args, stack: f.stack, entry: f.entry, unrolled: f.unrolled, curBlock: f.curBlock, inLoopCtx: f.inLoopCtx}
 	for k, v := range f.env {
 		n.env[k] = v
 	}
@@ -116,6 +118,8 @@ type Exec struct {
 	activeGhosts  []string
 	frameGhosts   []string
 	inlineCount   map[string]int
+	reachBackend  map[string]bool
+	reachMutating map[string]bool
 	maxOps        int
 	callSites     map[string][]string
 	topFrame      *Frame
@@ -431,6 +435,7 @@ func (ex *Exec) runBlock(fr *Frame, st *State, b *ssa.BasicBlock, idx int) []Out
 			}
 		}
 	}
+	fr.curBlock = b
 	for i := idx; i < len(b.Instrs); i++ {
 		ins := b.Instrs[i]
 		ex.steps++
@@ -636,6 +641,7 @@ func (ex *Exec) loopInvariants(fn *ssa.Function, ord int) []*Clause {
 // loopHead implements the loop cut. Returns true when the path ends here.
 func (ex *Exec) loopHead(fr *Frame, st *State, h *ssa.BasicBlock, li *LoopInfo) bool {
 	invs := ex.loopInvariants(fr.fn, li.Ord)
+	st.fresh = false // a new iteration starts: the context has not been consulted in it yet
 	if !fr.loopCut[h] && ex.exitTestDecided(fr, st, h) {
 		// the exit test is decided by constants on this path (e.g. a range over a
 		// variadic slice of known length): execute the iteration, no cut needed
